@@ -165,6 +165,7 @@ class Coll(V):
         self.nodup = nodup if nodup is not None else kind in ("set", "frozenset")
         self.len_z = None  # symbolic length when known although the order/multiplicity is abstracted
         self.ord = None  # order token (z3 term): the unknown iteration order this collection would be listed in
+        self.nodup_z = None  # z3 Bool "holds no duplicates" for lists whose python-level flag was lost (loops)
 
     def __repr__(self):
         return f"Coll({self.kind},{self.esort})"
@@ -752,6 +753,8 @@ class Executor:
         if isinstance(v, NoneV):
             return z3.BoolVal(False)
         if isinstance(v, Scalar):
+            if v.z.sort() == Opaque:
+                return z3.Function("truthy", Opaque, B)(v.z)
             if v.z.sort() == B:
                 return v.z
             if v.z.sort() == I:
@@ -1040,6 +1043,10 @@ class Executor:
                 raise Unsupported(f"element type of an empty collection could not be inferred at a loop head ({tag})")
             v.mem = fresh(tag, set_sort(v.esort))
             v.items = None
+            v.len_z = None
+            if v.kind in ("list",):
+                v.nodup = False
+                v.nodup_z = fresh(tag + "_nodup", B)
         elif isinstance(v, DictV):
             if v.ksort is None:
                 raise Unsupported(f"key type of an empty dict could not be inferred at a loop head ({tag})")
@@ -1177,6 +1184,38 @@ class Executor:
         self.loop_counter = max(self.loop_counter, saved_counter)
         # exit
         st.assume(z3.Not(z), f"loop{k}:exit")
+        out.append((st, NORMAL))
+        return out
+
+    def effect_free_loop(self, node, it, st, k):
+        """a for-loop whose body writes nothing of the modelled state (only per-iteration locals, calls on opaque
+        objects): its obligations are generated for an arbitrary element; afterwards the state is unchanged.
+        break/return/raise inside the body leave through the corresponding path."""
+        assigned, mutated = self.modified_names(node.body)
+        plain = set()
+        for n in ast.walk(ast.Module(body=list(node.body), type_ignores=[])):
+            if isinstance(n, ast.Assign):
+                for t in n.targets:
+                    if isinstance(t, ast.Name):
+                        plain.add(t.id)
+            if isinstance(n, (ast.Yield, ast.YieldFrom)):
+                return None
+        locals_ = {n for n in assigned if n not in st.env}
+        if (mutated - locals_) or (assigned - locals_):
+            return None
+        x = fresh(f"e{k}", it.esort)
+        s_body = st.fork()
+        s_body.assume(it.mem[x])
+        self.assign(node.target, val_of(x), s_body)
+        out = []
+        for s2, o in self.exec_block(node.body, s_body):
+            if o.kind in ("normal", "continue"):
+                continue
+            if o.kind == "break":
+                out.append((s2, NORMAL))
+            else:
+                out.append((s2, o))
+        self.assumed.add("effect-free loop rule: a loop body that writes no modelled state is checked for one arbitrary element")
         out.append((st, NORMAL))
         return out
 
@@ -1441,6 +1480,9 @@ class Executor:
         self.infer_loop_types(node, st, bind=lambda s_: self.assign(node.target, val_of(fresh("dry", it.esort)), s_))
         invf = self.contract.invariants.get(k) if self.inline_depth == 0 else None
         if invf is None:
+            r = self.effect_free_loop(node, it, st, k)
+            if r is not None:
+                return r
             raise Unsupported(f"for loop #{k} at line {node.lineno} has no invariant in the sidecar contract")
         saved_counter = self.loop_counter
         done0 = empty_set(it.esort)
@@ -1679,6 +1721,9 @@ class Executor:
             return container.dom[z3_of(item)]
         if isinstance(container, Scalar) and isinstance(container.z.sort(), z3.ArraySortRef):
             return container.z[z3_of(item)]
+        if isinstance(container, Scalar) and container.z.sort() == Opaque:
+            iz = z3_of(item)
+            return z3.Function(f"opaque_contains_{iz.sort()}", Opaque, iz.sort(), B)(container.z, iz)
         if isinstance(container, Obj):
             r = self.lib.obj_contains(self, container, item, st)
             if r is not None:
@@ -1767,6 +1812,8 @@ class Executor:
                 return r
             return BoundMethod(o, node.attr)
         if isinstance(o, ModuleV):
+            if o.name == "config" and node.attr == "SHOW_PROGRESS":
+                return Scalar(z3.Const("config.SHOW_PROGRESS", B))  # global switch: either value
             return ModuleV(o.name + "." + node.attr)
         if isinstance(o, Scalar):
             r = self.lib.scalar_attr(self, o, node.attr, st)
@@ -1884,6 +1931,30 @@ class Executor:
             mem = z3.Lambda([y], z3.Exists(bound + more, z3.And(*body_conds, deq(y, ez))))
         return Coll(kind, ez.sort(), mem, nodup=(kind != "list") or (nodup_src and ident is not None and ez.eq(ident)))
 
+    def ex_DictComp(self, node, st):
+        if len(node.generators) != 1 or node.generators[0].ifs:
+            raise Unsupported("dict comprehension form")
+        g = node.generators[0]
+        it = self.as_coll(self.ev(g.iter, st), st)
+        if it.mem is None:
+            return DictV(None, "scalar", None, None)
+        x = fresh("k", it.esort)
+        saved = dict(st.env)
+        mark = len(st.pc)
+        try:
+            self.assign(g.target, val_of(x), st)
+            st.pc.append(it.mem[x])
+            k = self.ev(node.key, st)
+            v = self.ev(node.value, st)
+        finally:
+            del st.pc[mark:]
+            st.env.clear()
+            st.env.update(saved)
+        if not z3_of(k).eq(x):
+            raise Unsupported("dict comprehension whose key is not the loop variable")
+        vz = z3_of(v)
+        return DictV(it.esort, "scalar", it.mem, z3.Lambda([x], vz), vsort=vz.sort())
+
     def ex_ListComp(self, node, st):
         return self.comp_generic(node, st, "list")
 
@@ -1995,6 +2066,9 @@ class Executor:
         r = self.lib.call_method(self, type(recv).__name__, recv, name, args, kwargs, st, node)
         if r is not NotImplemented:
             return r
+        if isinstance(recv, Scalar) and recv.z.sort() == Opaque:
+            self.assumed.add(f"method .{name}() of an opaque object (CPD / progress bar / ...) has no effect on the modelled state")
+            return Scalar(fresh(f"opq_{name}", Opaque))
         raise Unsupported(f"method {name} on {recv!r}")
 
     def encode_arg(self, v):
@@ -2010,13 +2084,15 @@ class Executor:
         return [z3_of(v)]
 
     def call_opaque(self, f, args, kwargs, st):
-        if kwargs:
-            raise Unsupported("keyword arguments to an opaque function")
         zs = []
-        for a in args:
+        for a in list(args) + [kwargs[k] for k in sorted(kwargs)]:
             zs += self.encode_arg(a)
         if not f.pure:
-            return Scalar(fresh(f.name + "_ret", f.rsort))
+            # the result may depend on hidden mutable state: an arbitrary function of the arguments *at this call*
+            if not zs:
+                return Scalar(fresh(f.name + "_ret", f.rsort))
+            g = z3.Function(f"{f.name}_at!{next(_fresh)}", *[z.sort() for z in zs], f.rsort)
+            return Scalar(g(*zs))
         key = (f.name, tuple(str(z.sort()) for z in zs))
         decls = self.__dict__.setdefault("_opaque_decls", {})
         if key not in decls:
@@ -2179,6 +2255,16 @@ class Executor:
             return self.lib.super_(self, args, st)
         if name == "hash":
             return Scalar(self.lib.hash_(self, args[0], st))
+        if name in ("min", "max") and len(args) == 1 and isinstance(args[0], (DictV, Coll)):
+            # arg-min/arg-max over a collection: modelled as *some* member (sound over-approximation of the choice)
+            c = self.as_coll(args[0], st)
+            if c.mem is None:
+                raise Unsupported("min/max of an empty literal")
+            self.oblige(st, nonempty(c.mem, c.esort), f"{name}-nonempty")
+            x = fresh(name, c.esort)
+            st.assume(c.mem[x])
+            self.assumed.add("min()/max() over a collection returns an arbitrary member (which one is not modelled)")
+            return val_of(x)
         if name == "map" and len(args) == 2 and isinstance(args[0], Closure):
             c = self.as_coll(args[1], st)
             if c.mem is None:
@@ -2247,10 +2333,13 @@ class Executor:
             if c.mem is None:
                 c.esort, c.mem = z.sort(), empty_set(z.sort())
             was_empty = c.items == []
+            if name == "append" and not was_empty:
+                prev = c.nodup_z if c.nodup_z is not None else z3.BoolVal(bool(c.nodup))
+                c.nodup_z = z3.And(prev, z3.Not(c.mem[z]))
+                c.nodup = False
+                c.len_z = None
             c.mem = z3.Store(c.mem, z, True)
             c.items = [args[0]] if was_empty else None
-            if name == "append" and not was_empty:
-                c.nodup = False
             return NONE
         if name in ("update", "extend", "union", "intersection", "difference", "difference_update", "intersection_update",
                     "issubset", "issuperset", "isdisjoint", "symmetric_difference"):
